@@ -251,7 +251,7 @@ class World:
             if kind == READY:
                 self.ready_written.add(args[0])
             if kind in (ACK, READY):
-                self.frames.append((kind, payload))
+                self.frames.append((kind, payload, args[0]))
 
     def _tap_in(self, pipe, proc, chunk):
         """Track message boundaries of the task pipe (byte offsets in the stream)."""
@@ -420,7 +420,10 @@ class World:
             k.sleep(gap)
             if not self.frames or self.term_calls or 'join_ret' in self.marks:
                 continue
-            kind, payload = self.frames[k.choose(len(self.frames), 'dup-frame')]
+            # mostly a message of a job that is still in progress (a part of a map that is not finished yet)
+            live = [f for f in self.frames if f[2] in self.pool._cache]
+            cand = live if live and k.choose(10, 'dup-bias') < 7 else self.frames
+            kind, payload, _job = cand[k.choose(len(cand), 'dup-frame')]
             try:
                 with q._wlock:
                     q._writer.send_bytes(payload)
